@@ -49,15 +49,23 @@ def build():
             for window in (1, 2):
                 for pf in ([], [['g', 1]]) if gcols else ([],):
                     for side in ('right', 'left'):
-                        for limit in (None, 2):
-                            conds = [c for c in [ctext] + ['t.%s = %d' % (c, v) for c, v in pf] if c]
-                            frm = ('int1.%s as t join mindsdb.m as m' % tab) if side == 'right' else \
-                                  ('mindsdb.m as m join int1.%s as t' % tab)
-                            sql = 'select * from %s%s%s' % (frm, (' where ' + ' and '.join(conds)) if conds else '',
-                                                         ' limit %d' % limit if limit else '')
-                            spec = dict(cspec, on=1, window=window, tcol='ts', gcols=gcols, pf=pf)
-                            cases.append({'sql': sql, 'spec': spec, 'tab': tab, 'cols': cols, 'window': window,
-                                          'gcols': gcols, 'cond': ck, 'side': side, 'limit': limit, 'pf': pf, 'ng': ng})
+                        for limit in (None, 1, 2):
+                            pfc = ['t.%s = %d' % (c, v) for c, v in pf]
+                            shapes = {'flat': ' and '.join([c for c in [ctext] + pfc if c])}
+                            if ctext and pfc:
+                                # the same conjunction written in other shapes (filters first; time filter in a group)
+                                shapes['filters-first'] = ' and '.join(pfc + [ctext])
+                                shapes['time-in-group'] = '%s and (%s and %s)' % (pfc[0], pfc[0], ctext)
+                                shapes['group-first'] = '(%s and %s) and %s' % (ctext, pfc[0], pfc[0])
+                            for shape, wtxt in shapes.items():
+                                frm = ('int1.%s as t join mindsdb.m as m' % tab) if side == 'right' else \
+                                      ('mindsdb.m as m join int1.%s as t' % tab)
+                                sql = 'select * from %s%s%s' % (frm, (' where ' + wtxt) if wtxt else '',
+                                                             ' limit %d' % limit if limit else '')
+                                spec = dict(cspec, on=1, window=window, tcol='ts', gcols=gcols, pf=pf)
+                                cases.append({'sql': sql, 'spec': spec, 'tab': tab, 'cols': cols, 'window': window,
+                                              'gcols': gcols, 'cond': ck, 'side': side, 'limit': limit, 'pf': pf, 'ng': ng,
+                                              'shape': shape})
     return cases
 
 
@@ -94,10 +102,17 @@ def _plan(c):
         user_filter = None
         if c['cond'] != 'none':
             w = tree.where
-            first = w
-            while type(first).__name__ == 'BinaryOperation' and str(first.op).lower() == 'and':
-                first = first.args[0]
-            user_filter = norm(first)
+            # the user's time condition: the comparison on the order column
+            found = []
+
+            def walk(n):
+                if type(n).__name__ == 'BinaryOperation' and str(n.op).lower() == 'and':
+                    for a in n.args:
+                        walk(a)
+                elif any(type(a).__name__ == 'Identifier' and str(a.parts[-1]).lower() == 'ts' for a in getattr(n, 'args', [])):
+                    found.append(n)
+            walk(w)
+            user_filter = norm(found[0]) if found else None
         plan = plan_query(parse_sql(c['sql'], 'mindsdb'), **catalog(c['window'], c['gcols']))
     except (PlanningException, NotImplementedError) as e:
         out['status'] = 'refused:%s' % str(e)[:80]
